@@ -17,6 +17,68 @@ impl Drop for Bomb {
     }
 }
 
+#[derive(Clone, PartialEq, Debug)]
+struct Sa(u32);
+#[derive(Clone, PartialEq, Debug)]
+struct Sb(u64);
+
+/// Component types that are themselves bundle types (a tuple, the unit type), in a world of their own: a bundle `B`
+/// given to the world directly and a lone component of type `B` recorded in a command buffer are different things,
+/// whichever comes first. `sel` picks the type and the order.
+fn bundle_typed_component(sel: u64, out: &mut Out) {
+    fn go<B: Bundle + DynamicBundle + Component + Clone + PartialEq + 'static>(b: B, ntypes: usize, replay_first: bool, out: &mut Out) {
+        let r = catch_unwind(AssertUnwindSafe(|| {
+            let mut side = World::new();
+            let x = side.spawn((Sb(1),));
+            let y = side.spawn((Sb(2),));
+            let mut cmd = CommandBuffer::new();
+            cmd.insert_one(y, b.clone());
+            if replay_first {
+                cmd.run_on(&mut side);
+                side.insert(x, b.clone()).unwrap();
+            } else {
+                side.insert(x, b.clone()).unwrap();
+                cmd.run_on(&mut side);
+            }
+            let nx = side.entity(x).unwrap().component_types().count();
+            let ny = side.entity(y).unwrap().component_types().count();
+            let held = match side.get::<&B>(y) {
+                Ok(v) => *v == b,
+                Err(_) => false,
+            };
+            let xs = match side.get::<&Sb>(x) {
+                Ok(v) => v.0,
+                Err(_) => 0,
+            };
+            let ys = match side.get::<&Sb>(y) {
+                Ok(v) => v.0,
+                Err(_) => 0,
+            };
+            let xb = side.get::<&B>(x).is_ok();
+            (nx, ny, held, xs, ys, xb)
+        }));
+        match r {
+            Ok((nx, ny, held, xs, ys, xb)) => {
+                let want_nx = 1 + ntypes;
+                if nx != want_nx || ny != 2 || !held || xb || xs != 1 || ys != 2 {
+                    out.flag(format!(
+                        "C11: a buffered insert_one of a component of type {} and a direct insert of that bundle got mixed up: {:?}",
+                        std::any::type_name::<B>(),
+                        (nx, ny, held, xs, ys, xb)
+                    ));
+                }
+            }
+            Err(_) => out.flag(format!("C11: replaying insert_one of a component of type {} panicked", std::any::type_name::<B>())),
+        }
+    }
+    let replay_first = sel % 2 == 1;
+    match (sel / 2) % 3 {
+        0 => go((), 0, replay_first, out),
+        1 => go((Sa(5),), 1, replay_first, out),
+        _ => go((Sa(6), 7u8), 2, replay_first, out),
+    }
+}
+
 fn type_index(id: TypeId) -> u64 {
     let ids = [
         TypeId::of::<C0>(),
@@ -382,6 +444,7 @@ impl Engine {
                 let h = if opc == 81 { Some(self.href(r)) } else { None };
                 let b = dec_bundle(r);
                 self.ledger.give(&b.items, &sizes, out);
+                bundle_typed_component(b.items.len() as u64 * 2 + (opc - 80) + cb as u64 * 2, out);
                 let buf = &mut self.cmd[cb];
                 if b.kind == 0 || b.kind >= 10 {
                     let types: Vec<u64> = b.items.iter().map(|x| x.0).collect();
